@@ -64,3 +64,25 @@ def caching_new(c: Cls) -> ast.FunctionDef | None:
             if stores:
                 return st
     return None
+
+
+def fresh_object_local(fn: ast.FunctionDef) -> str | None:
+    """The local that holds the object re-created on this path: bound exactly once, to ``super(...)._deserialize(...)``
+    (role-based: the name itself does not matter)."""
+    from .astutil import walk_body
+    cands: dict[str, int] = {}
+    stores: dict[str, int] = {}
+    for n in walk_body(fn.body):
+        if isinstance(n, ast.Name) and isinstance(n.ctx, ast.Store):
+            stores[n.id] = stores.get(n.id, 0) + 1
+        if isinstance(n, (ast.Assign, ast.AnnAssign)):
+            tg = n.targets[0] if isinstance(n, ast.Assign) and len(n.targets) == 1 else getattr(n, "target", None)
+            v = n.value
+            while isinstance(v, ast.Call) and isinstance(v.func, (ast.Name, ast.Attribute)) and (
+                    (isinstance(v.func, ast.Name) and v.func.id == "cast") or (isinstance(v.func, ast.Attribute) and v.func.attr == "cast")) and len(v.args) == 2:
+                v = v.args[1]
+            if isinstance(tg, ast.Name) and isinstance(v, ast.Call) and isinstance(v.func, ast.Attribute) and v.func.attr == "_deserialize" \
+                    and isinstance(v.func.value, ast.Call) and isinstance(v.func.value.func, ast.Name) and v.func.value.func.id == "super":
+                cands[tg.id] = cands.get(tg.id, 0) + 1
+    one = [k for k, c in cands.items() if c == 1 and stores.get(k) == 1]
+    return one[0] if len(one) == 1 else None
